@@ -196,6 +196,38 @@ def make_special(name):
             PatchwiseTransform(2, KDRandomHorizontalFlip()),
             KDRandomApply(KDColorJitter(saturation=0.5), p=0.5), KDSemsegRandomHorizontalFlip()], seed=seed_value()), "x semseg",
             return_ctx=True), list(range(N))
+    if name.startswith("shared_transform"):
+        # ONE transform object used by two seeded wrappers (train/val built from one object, or two stacked wrappers)
+        from kappadata.wrappers.sample_wrappers.x_transform_wrapper import XTransformWrapper
+        from kappadata.wrappers.sample_wrappers.kd_multi_view_wrapper import KDMultiViewWrapper
+        from kappadata.transforms.base.kd_compose_transform import KDComposeTransform
+        from kappadata.datasets.kd_dataset import KDDataset
+        P = probe_cls()
+        t = KDComposeTransform([P()]) if name.endswith("_nested") else P()
+        if name.startswith("shared_transform_stacked"):
+            w = XTransformWrapper(XTransformWrapper(Root("T3"), t, seed=seed_value()), t, seed=seed_value(3))
+            return ModeWrapper(w, "x class", return_ctx=True), list(range(N))
+        a = XTransformWrapper(Root("T3"), t, seed=seed_value())
+        b = (KDMultiViewWrapper(Root("T3"), [t, (2, t)], seed=seed_value(3)) if "multiview" in name
+             else XTransformWrapper(Root("T3"), t, seed=seed_value(3)))
+
+        class Pair(KDDataset):
+            """positions 0..N-1 come from wrapper a, N..2N-1 from wrapper b"""
+
+            def __len__(self):
+                return 2 * N
+
+            def getitem_x(self, idx, ctx=None):
+                return a.getitem_x(idx, ctx) if idx < N else b.getitem_x(idx - N, ctx)
+
+            def getitem_class(self, idx, ctx=None):
+                return 0
+
+            def worker_init_fn(self, rank, **kwargs):
+                a.worker_init_fn(rank, **kwargs)
+                b.worker_init_fn(rank, **kwargs)
+
+        return ModeWrapper(Pair(), "x class", return_ctx=True), list(range(2 * N))
     import kappadata.common.wrappers.sample_wrappers as cw
     if name == "byol_multiview":
         return ModeWrapper(cw.ByolMultiViewWrapper(Root("PIL"), seed=seed_value()), "x", return_ctx=True), list(range(N))
@@ -214,7 +246,8 @@ def probe_like_color():
     return KDRandomColorJitter(p=0.8, brightness=0.4, contrast=0.4)
 
 
-SPECIALS = ("mix", "mix_p05", "other_items", "semseg", "semseg_nested", "semseg_scheduled", "byol_multiview", "mugs_multiview", "imagenet_minaug_multiview", "imagenet_minaug_xtransform")
+SPECIALS = ("shared_transform_pair", "shared_transform_pair_nested", "shared_transform_pair_multiview", "shared_transform_stacked",
+            "shared_transform_stacked_nested", "mix", "mix_p05", "other_items", "semseg", "semseg_nested", "semseg_scheduled", "byol_multiview", "mugs_multiview", "imagenet_minaug_multiview", "imagenet_minaug_xtransform")
 
 
 def histories(n_pos, maxlen=3):
@@ -316,7 +349,7 @@ def explore_stack(make, label, case, p, expect_distinct, maxlen=3, workers=True)
             p.violation(f"C08:exception_at_access:{type(e).__name__}|{label}", case, f"{label}: {type(e).__name__}: {e}")
             return
     p.evaluations += 1
-    if ok and expect_distinct and len(table) == N and len(set(table.values())) != N:
+    if ok and expect_distinct and len(table) >= N and len(set(table.values())) != len(table):
         p.violation(f"C08:indices_share_a_stream|{label}", case,
                     f"{label}: different indices of identical data give identical observations {sorted(table.items())}")
     if ok:
@@ -340,7 +373,8 @@ def task(items):
                           maxlen=3 if _tensor_out(tspec) else 2, workers=not sched)
         else:
             explore_stack(lambda: make_special(it[1]), it[1] + sfx, dict(special=it[1], seed0=bool(sfx)), p,
-                          expect_distinct=it[1] in ("byol_multiview", "other_items"), workers=it[1] != "semseg_scheduled")
+                          expect_distinct=it[1] in ("byol_multiview", "other_items") or it[1].startswith("shared_transform"),
+                          workers=it[1] != "semseg_scheduled", maxlen=3)
     p.sample(dict(item=[str(x) for x in items[0]], histories="all access sequences of length<=3 x perturbation; workers 1..3"))
     return p
 
